@@ -317,8 +317,20 @@ def s_admit(draw):
     seq = []
     for _ in range(draw(gen.uint(2, 12))):
         f = valid[draw(gen.uint(0, nvalid - 1))]
-        kind = draw(st.sampled_from(["valid", "valid", "flips", "flips-parity", "flips-data", "burst", "burst-parity"]))
+        kind = draw(st.sampled_from(["valid", "valid", "flips", "flips-parity", "flips-data", "burst", "burst-parity", "syndrome-is-a-known-address", "other-format"]))
         e = 0
+        if kind == "other-format":
+            # replies of the other admissible formats, from transponders the reader may or may not have heard: admitted by length and format alone
+            if draw(st.booleans()):
+                seq.append(["%014X" % ((draw(st.sampled_from([4, 5, 11])) << 51) | draw(gen.ubits(51))), False, True])
+            else:
+                seq.append(["%028X" % ((draw(st.sampled_from([20, 21])) << 107) | draw(gen.ubits(107))), False, True])
+            continue
+        if kind == "syndrome-is-a-known-address":
+            # the squitter of one aircraft, then a frame whose parity field is off by exactly that aircraft's address (a burst of <= 24 bits)
+            other = valid[draw(gen.uint(0, nvalid - 1))]
+            seq.append(["%028X" % other, False])
+            e = (other >> 80) & 0xFFFFFF
         if kind.startswith("flips"):
             lo, hi = {"flips": (0, 106), "flips-parity": (0, 23), "flips-data": (24, 106)}[kind]   # bits 107-111 (the DF field) stay: the frame remains DF17
             for b in draw(st.lists(gen.uint(lo, hi), min_size=1, max_size=5, unique=True)):
@@ -327,6 +339,8 @@ def s_admit(draw):
             L = draw(gen.uint(2, 24))
             start = draw(gen.uint(0, (24 if kind == "burst-parity" else 107) - L))
             e = (1 | (draw(gen.ubits(L - 2)) << 1 if L > 2 else 0) | 1 << (L - 1)) << start
+        if e and (f ^ e) >> 107 != 17:
+            e = 0
         seq.append(["%028X" % (f ^ e), e != 0])
     return {"seq": seq, "debug": draw(gen.uint(0, 3)) == 0, "hc": draw(st.sampled_from(["U", "U", "L"]))}
 
@@ -338,17 +352,21 @@ def chk_admit(case, note):
     rd = variants.make_reader(rtlreader.RtlReader, case["debug"])
     nbad = 0
     seen = []
-    for msg, corrupted in case["seq"]:
+    for item in case["seq"]:
+        msg, corrupted = item[0], item[1]
         if case["hc"] == "L":
             msg = msg.lower()
         with contextlib.redirect_stdout(io.StringIO()):
             r = call(rd._check_msg, msg)
         if r[0] != "ok":
             return "RtlReader(debug=%s)._check_msg(%s) raised %r" % (case["debug"], msg, r[1:])
-        want = crc24.remainder(int(msg, 16), 112) == 0
+        want = True if len(item) > 2 else crc24.remainder(int(msg, 16), 112) == 0
         if corrupted and want:
             return "harness: corrupted frame %s has reference remainder 0" % msg   # cannot happen for these error patterns
         if bool(r[1]) != want:
+            if len(item) > 2:
+                return "RtlReader(debug=%s)._check_msg(%s) -> %r after the reader was shown %r; a DF%d reply of %d digits is admitted by format and length" % (
+                    case["debug"], msg, r[1], seen, int(msg[:2], 16) >> 3, len(msg))
             return "RtlReader(debug=%s)._check_msg(%s) -> %r after the reader was shown %r; reference remainder %06X (%s)" % (
                 case["debug"], msg, r[1], seen, crc24.remainder(int(msg, 16), 112), "a corrupted copy of a frame seen before" if corrupted else "a valid frame")
         seen.append(msg)
@@ -389,7 +407,21 @@ def first_jobs(rng):
     return jobs
 
 
+def chk_demodulated(case, note):
+    """the same clause on the sample path: whatever _process_buffer returns as DF17 has remainder 0 (frames with flipped bits, and valid frames
+    of which single bits arrive with both chips high and nearly balanced, are among the transmitted ones) - judged by C19's synthesiser"""
+    from checks import c19
+    return c19.chk_case(case, note)
+
+
+def s_demodulated():
+    from checks import c19
+    return c19.s_case()
+
+
 LEGS = [
+    Leg("demodulated", chk_demodulated, strategy=s_demodulated, quick=1500, thorough=40000,
+        doc="sample buffers with corrupted and with smeared DF17 frames through RtlReader._process_buffer: no DF17 frame with a non-zero remainder comes out"),
     variants.first_use_leg(first_jobs),
     volume.leg(vol_step, 140000, 1300000, "140 000 (thorough: 1.3 million per process) distinct random frames through crc() in one process, each against the reference division"),
     Leg("admission", chk_admit, strategy=s_admit, quick=6000, thorough=200000,
